@@ -668,6 +668,8 @@ func (c *codegen) pickVarsFromNodes(nodes []nodeContext, markAsUsed func(name st
 						// Do nothing, used functions are handled in a separate cycle.
 					case *ast.SelectorExpr:
 						nextExprToCheck = append(nextExprToCheck, val.derive(t))
+					default: // func() int { return Unused }(), fs[Unused](1), mk(Unused)(1) => look inside the callee.
+						nextExprToCheck = append(nextExprToCheck, val.derive(t))
 					}
 					for _, arg := range n.Args {
 						switch arg.(type) {
